@@ -98,6 +98,12 @@ func reconcileBody(r *explore.Run, rep *report.R) {
 		found := s.PeekInto(crdKey(name), stored)
 		want := x.renderable() && !(k == claim && collision != "")
 		switch {
+		case collision == "plural" && oerr == nil:
+			// claim and composite CRD share a name; report the accepted
+			// collision once instead of judging whichever CRD was written last.
+			if k == claim {
+				f.add("reconcile/claimnames/collision-plural/accepted", "the offered reconciler reports no error for claim names repeating the composite's plural")
+			}
 		case k == claim && collision != "" && oerr == nil:
 			f.add("reconcile/claimnames/collision-"+collision+"/accepted", "the offered reconciler reports no error for claim names repeating the composite's %s", collision)
 		case k == claim && collision == "plural":
@@ -119,9 +125,8 @@ func reconcileBody(r *explore.Run, rep *report.R) {
 			outcome = append(outcome, fmt.Sprintf("%s:none(found=%v)", K, found))
 		}
 	}
-	if len(f.list) > 0 {
-		sig, msg := f.first()
-		r.Failf(sig, "%s", msg)
+	if f.raise(r, "reconcile") {
+		return
 	}
 	nt := ""
 	if x.anyCollision(composite) || x.anyCollision(claim) || collision != "" {
